@@ -73,6 +73,8 @@ fn in_child(f: impl FnOnce() -> bool) -> &'static str {
     }
 }
 
+const EMBED_SENTINEL: u64 = 0x5EA7_1E55_0DD5_EED5;
+
 pub fn round_trip<T>(p: &P, cfg: &C19Cfg, build: fn(&P) -> T, fp: fn(&T, &P, &mut Fingerprint), eq: Option<fn(&T, &T) -> bool>) -> C19Outcome
 where
     T: Serialize + DeserializeOwned + Send + 'static,
@@ -87,9 +89,13 @@ where
         let mut file = SimFile::new(storage_seed);
         let w = bincode::serialize_into(&mut file, &v).map_err(|e| e.to_string());
         let json = serde_json::to_string(&v).map_err(|e| e.to_string());
-        (v, fa, file, w, json)
+        // the value as PART of something larger (a pipeline struct, a checkpoint with a trailer):
+        // in a positional format a writer and a reader that disagree about the value's extent
+        // only show once something follows it
+        let embedded = bincode::serialize(&(&v, EMBED_SENTINEL, &v, EMBED_SENTINEL ^ 1)).map_err(|e| e.to_string());
+        (v, fa, file, w, json, embedded)
     });
-    let (orig, fa, mut file, w, json) = match a {
+    let (orig, fa, mut file, w, json, embedded) = match a {
         Ok(t) => t,
         Err(panic) => {
             out.scenario_panic = Some(format!("process A panicked: {panic}"));
@@ -106,6 +112,28 @@ where
     // ---- simulated process B (different hash seed, pool, clock): restore, observe
     let b = run_sim_once(cfg.env_b, move || {
         let mut probes: BTreeMap<String, u64> = BTreeMap::new();
+        // fault: the first attempts to read the file fail (it is still being written - a torn
+        // prefix), on this same thread; the reader gives an error each time and the attempt on
+        // the complete file right afterwards must not be able to tell.  (A torn prefix cannot
+        // carry a corrupted length - lengths are either complete and true or incomplete - so
+        // this is safe in-process, unlike the bit-flip probe below.)
+        if file.data.len() > 1 {
+            let mut rr = Prng::new(storage_seed ^ 0x7043);
+            // (types that compile a regular expression on every read are two orders of magnitude
+            // dearer to deserialise: fewer attempts for them - decided by type, not by a clock)
+            let tn = std::any::type_name::<T>();
+            let dear = tn.contains("Vectorizer") || tn.contains("Regex");
+            let attempts = (if dear { 6usize } else { 1200 }).min((1 << 20) / file.data.len().max(1)).max(2);
+            let mut failed = 0u64;
+            for _ in 0..attempts {
+                let cut = rr.below(file.data.len() as u64 - 1) as usize;
+                let data = &file.data;
+                if !matches!(catch_unwind(AssertUnwindSafe(|| bincode::deserialize::<T>(&data[..cut]).is_ok())), Ok(true)) {
+                    failed += 1;
+                }
+            }
+            *probes.entry("failed_reads_of_a_torn_file_before_the_real_read".to_string()).or_default() += failed;
+        }
         file.rewind();
         let restored: Result<T, String> = bincode::deserialize_from(&mut file).map_err(|e| e.to_string());
         let stats = file.stats.clone();
@@ -149,6 +177,17 @@ where
                     catch_unwind(AssertUnwindSafe(|| fp_of(&r2, &p, fp))).map_err(|_| "second-generation value panicked when used".to_string())
                 })();
                 *probes.entry("second_generation_round_trips".to_string()).or_default() += 1;
+                let gen2 = gen2.and_then(|g| {
+                    let bytes = embedded.as_ref().map_err(|e| format!("embedded serialize: {e}"))?;
+                    let (e1, s1, e2, s2): (T, u64, T, u64) = bincode::deserialize(bytes).map_err(|e| format!("value embedded in a larger record (value, marker, value, marker) does not deserialize: {e}"))?;
+                    if s1 != EMBED_SENTINEL || s2 != EMBED_SENTINEL ^ 1 {
+                        return Err(format!("data FOLLOWING the value in one positional record came back changed ({s1:#x}, {s2:#x}): writer and reader disagree about where the value ends"));
+                    }
+                    // (what the two copies hold is what the stand-alone restore above already
+                    // compared field by field; here only the framing is at stake)
+                    drop((e1, e2));
+                    Ok(g)
+                });
                 let js = match &json {
                     Ok(s) => match serde_json::from_str::<T>(s) {
                         Ok(jv) => catch_unwind(AssertUnwindSafe(|| fp_of(&jv, &p, fp))).map_err(|_| "json-restored value panicked when used".to_string()),
